@@ -121,6 +121,8 @@ type LuaCase struct {
 	Chunk   string
 	Limited bool
 	Stats   bool
+	// HeapFn (heap=1): the program gets heapnow(), which runs the Go collector and returns MemStats.HeapAlloc
+	HeapFn bool
 	// WallOut: append W:<wall-clock microseconds, with wall=1> to the result line (wall=1); off by default so that result
 	// lines of two runs of the same case stay identical
 	WallOut bool
@@ -169,6 +171,8 @@ func ParseLuaCase(line string) (lc LuaCase, ok bool) {
 			lc.Stats = v == "1"
 		case "wall":
 			lc.WallOut = v == "1"
+		case "heap":
+			lc.HeapFn = v == "1"
 		case "mode":
 			lc.Mode = v
 		case "chunk":
@@ -217,6 +221,16 @@ func RunLuaCase(lc LuaCase) (res LuaResult) {
 	}
 	f := r.SetEnvGoFunc(r.GlobalEnv(), "emit", emit, 0, true)
 	rt.SolemnlyDeclareCompliance(rt.ComplyCpuSafe|rt.ComplyMemSafe|rt.ComplyTimeSafe|rt.ComplyIoSafe, f)
+	if lc.HeapFn {
+		hf := r.SetEnvGoFunc(r.GlobalEnv(), "heapnow", func(t *rt.Thread, c *rt.GoCont) (rt.Cont, error) {
+			var ms goruntime.MemStats
+			goruntime.GC()
+			goruntime.GC()
+			goruntime.ReadMemStats(&ms)
+			return c.PushingNext1(t.Runtime, rt.IntValue(int64(ms.HeapAlloc))), nil
+		}, 0, false)
+		rt.SolemnlyDeclareCompliance(rt.ComplyCpuSafe|rt.ComplyMemSafe|rt.ComplyTimeSafe|rt.ComplyIoSafe, hf)
+	}
 	defer func() {
 		if x := recover(); x != nil {
 			res.Status = "gopanic"
